@@ -15,6 +15,10 @@ Decided clauses:
       handlers in vm::opcode::push::array never use the [[Set]]-based Array::push / JsObject::set for an element — a setter
       for an index on Array.prototype must not observe `[...x]` or `f(...x)`, nor leave the internal arguments array
       non-dense (which CallSpread / NewSpread treat as an internal error)
+  R5  the array length slot is written directly only when the length does not shrink: a direct store into
+      PropertyMap.storage[0] (the `length` of template-shaped arrays) in the array builtins / push opcodes stores old length
+      plus a positive constant, or is dominated by an ordering comparison against the old length (shrinking must go
+      through ArraySetLength, which deletes the elements at and above the new length)
 Not decided: transition correctness of IndexedProperties, results of the Array.prototype methods.
 """
 from facts import (cn, callee, cname, roots, op_local, taint, arg_hits, place_fields, bool_switch, bool_origin)
@@ -278,8 +282,89 @@ def r4(db, rep):
     rep.floor("R4", "array-building opcode handlers", n, 4)
 
 
+def r5(db, rep):
+    from facts import provenance
+    rep.rule("R5", "a direct store into the array length slot (PropertyMap.storage[0]) never shrinks the array: the stored value "
+                   "is the old length plus a constant, or the store is dominated by an ordering comparison with the old length")
+    CONV = ("as_i32", "as_number", "to_u32", "to_length", "clone", "branch", "unwrap", "expect", "into", "from", "new", "as_ref",
+            "deref", "deref_mut", "index", "index_mut", "properties", "properties_mut", "borrow", "borrow_mut", "unwrap_or",
+            "is_some_and", "try_from", "try_into", "map", "ok")
+    n = 0
+    for f in db.fns.values():
+        if not f.id.startswith(("boa_engine::builtins::array", "boa_engine::vm::opcode::push::array")) or "::tests" in f.id:
+            continue
+        if not f.mentions("index_mut") or "{closure" in f.id:
+            continue
+        name = cname(f.id)
+        # loads / slots of storage[0]
+        slot_calls = []
+        for b, t in f.calls():
+            m = (t.get("rf") or callee(t) or "").split("::")[-1]
+            if m not in ("index", "index_mut") or len(t["args"]) < 2:
+                continue
+            a1 = t["args"][1]
+            zero = (a1[0] == "k" and a1[1].get("v") == "0") or (op_local(a1) is not None and any(
+                r[0] == "const" and r[1].get("v") == "0" for r in roots(f, op_local(a1))))
+            if not zero:
+                continue
+            l0 = op_local(t["args"][0])
+            if l0 is None:
+                continue
+            prov = provenance(f, l0, extra=CONV)
+            is_storage = False
+            for q in prov:
+                for bb, i, rr in f.defs().get(q, []):
+                    if i != "t" and isinstance(rr, dict) and rr.get("k") == "ref" and any(
+                            x.endswith("PropertyMap.storage") for x in place_fields(rr["p"])):
+                        is_storage = True
+            if is_storage:
+                slot_calls.append((b, t, m))
+        loads = {t["dest"][0] for b, t, m in slot_calls if m == "index" and t.get("dest")}
+        k = 0
+        for b, t, m in slot_calls:
+            if m != "index_mut" or not t.get("dest"):
+                continue
+            ref = t["dest"][0]
+            for sb in f.reach_from([t["to"]] if "to" in t else []):
+                for st in f.blocks[sb]["s"]:
+                    if st["p"][:1] == [ref] and len(st["p"]) == 2 and st["p"][1] == "*":
+                        n += 1
+                        vl = op_local(st["r"]["o"]) if st["r"].get("k") == "use" else None
+                        vprov = provenance(f, vl, extra=CONV) if vl is not None else set()
+                        grows = False
+                        # (a) old length + constant
+                        for q in vprov:
+                            for bb, i, rr in f.defs().get(q, []):
+                                if i != "t" and isinstance(rr, dict) and rr.get("k") in ("bin", "checked") and \
+                                        rr.get("op", "").startswith("Add") and (vprov & loads):
+                                    grows = True
+                        # (b) dominated by an ordering comparison involving the old length
+                        for db_ in f.dominators().get(sb, ()):
+                            bs = bool_switch(f, db_)
+                            if not bs:
+                                continue
+                            pol, root = bool_origin(f, bs[0])
+                            cmp_ops = []
+                            if root[0] == "rv" and root[2].get("k") == "bin" and root[2]["op"] in ("Ge", "Gt", "Le", "Lt"):
+                                cmp_ops = [root[2]["a"], root[2]["b"]]
+                            elif root[0] == "call" and cn(root[2]).split("::")[-1] in ("is_some_and", "ge", "gt", "le", "lt"):
+                                cmp_ops = root[2]["args"]
+                            for o in cmp_ops:
+                                ol = op_local(o)
+                                if ol is not None and provenance(f, ol, extra=CONV) & loads:
+                                    grows = True
+                        rep.ob("R5", f"{name}:length-slot-store:{k}:not-a-shrink", grows,
+                               f"{name} writes the array length slot directly ({f.file}:{st.get('ln')}) with a value that may be "
+                               f"smaller than the old length: the elements at and above it stay (a species constructor that "
+                               f"returns a pre-filled array makes `splice` return length 1 with own keys 0..4)",
+                               loc=f"{f.file}:{st.get('ln')}")
+                        k += 1
+    rep.floor("R5", "direct stores into the array length slot", n, 3)
+
+
 def run(db, rep, tier):
     r1(db, rep)
     r2(db, rep)
     r3(db, rep)
     r4(db, rep)
+    r5(db, rep)
